@@ -42,7 +42,7 @@ func (env *SpecEnv) call(x ECall, hint types.Type) Value {
 			a := env.evalTerm(x.Args[0], hint)
 			b := env.evalTerm(x.Args[1], a.T)
 			var c string
-			if ex.vc.mode == ModeBV {
+			if tc.isBV(a.T) {
 				c = sx("bvsge", a.S, b.S)
 			} else {
 				c = sx(">=", a.S, b.S)
@@ -96,8 +96,14 @@ func (env *SpecEnv) call(x ECall, hint types.Type) Value {
 		case "int64", "int", "uint64", "int32", "uint8", "uint32", "byte":
 			v := env.evalTerm(x.Args[0], nil)
 			to := types.Universe.Lookup(id.Name).(*types.TypeName).Type()
-			if ex.vc.mode == ModeBV {
+			fbv, tbv := tc.isBV(v.T), tc.isBV(to)
+			switch {
+			case fbv && tbv:
 				return Term{S: ex.resizeBV(v.S, widthOf(v.T), widthOf(to), isSigned(v.T)), T: to}
+			case fbv && !tbv:
+				return Term{S: ex.bvToInt(v.S, widthOf(v.T), isSigned(v.T)), T: to}
+			case !fbv && tbv:
+				return Term{S: sx(fmt.Sprintf("(_ int2bv %d)", widthOf(to)), v.S), T: to}
 			}
 			return Term{S: v.S, T: to}
 		}
@@ -228,7 +234,14 @@ func (ex *Exec) specFuncApply(inner *SpecEnv, sf *SpecFunc, argv []Term) Value {
 	if ex.probing > 0 {
 		return Term{S: "probe!" + name, T: ret}
 	}
-	ex.vc.declareFun(name, "("+strings.Join(sorts, " ")+")", ex.vc.tc.sortOf(ret))
+	if sf.Body != nil {
+		ex.defineRecSpec(inner, sf, name, reads, sorts, ret)
+	} else {
+		ex.vc.declareFun(name, "("+strings.Join(sorts, " ")+")", ex.vc.tc.sortOf(ret))
+	}
+	if len(actuals) == 0 {
+		return Term{S: name, T: ret}
+	}
 	return Term{S: sx(name, actuals...), T: ret}
 }
 
@@ -357,4 +370,46 @@ func (env *SpecEnv) lemmaInstance(lm *Lemma, args []Expr) Value {
 	}
 	n.vars = vars
 	return n.evalTerm(lm.Body, types.Typ[types.Bool])
+}
+
+// defineRecSpec emits a recursive spec function as define-fun-rec over (read heap components, parameters).
+func (ex *Exec) defineRecSpec(inner *SpecEnv, sf *SpecFunc, name string, reads, sorts []string, ret types.Type) {
+	vc := ex.vc
+	if _, ok := vc.defs[name]; ok {
+		return
+	}
+	if vc.recBusy == nil {
+		vc.recBusy = map[string]bool{}
+	}
+	if vc.recBusy[name] {
+		return
+	}
+	vc.recBusy[name] = true
+	defer delete(vc.recBusy, name)
+	formal := &State{pc: "true", cells: map[*ssa.Alloc]Value{}, heap: map[string]string{}, ghost: map[string]string{}}
+	var params []string
+	for i, c := range reads {
+		f := "f!" + mangle(c)
+		if _, isGhost := inner.st.ghost[c]; isGhost {
+			formal.ghost[c] = f
+		} else {
+			formal.heap[c] = f
+		}
+		params = append(params, "("+f+" "+sorts[i]+")")
+	}
+	n := inner.sub()
+	n.st = formal
+	n.old = nil
+	n.fr = nil
+	n.vars = map[string]Value{}
+	for i, p := range sf.Params {
+		a := "a!" + p.Name
+		n.vars[p.Name] = Term{S: a, T: n.resolveType(p.Type)}
+		params = append(params, "("+a+" "+sorts[len(reads)+i]+")")
+	}
+	vc.noDefine++
+	body := n.evalTerm(sf.Body, ret)
+	vc.noDefine--
+	vc.defs[name] = &defn{sort: vc.tc.sortOf(ret), args: "(" + strings.Join(params, " ") + ")", def: body.S, isRec: true}
+	vc.order = append(vc.order, name)
 }
